@@ -73,6 +73,8 @@ def grad_value(pidx, t, shape, seed, kind="table"):
         for v in vecs[1:]:
             g = np.multiply.outer(g, v)
         return g / (2.0 ** (len(shape) - 1))
+    if kind == "zero_second" and pidx == 1 and t >= 1:
+        return np.zeros(shape)  # present-but-all-zero gradient (must be treated as a gradient, not as absent)
     if kind == "onehot_first" and t == 0:
         g = np.zeros(n)
         g[(pidx + seed) % n] = TABLE[(pidx + seed) % 8]
